@@ -22,6 +22,7 @@ type PropCfg struct {
 	Note        string   `json:"note"`
 	Ground      []string `json:"ground"` // names of built-in ground checks
 	Exec        string   `json:"exec"`   // name of a built-in executable (bounded) check
+	TaggedOnly  bool     `json:"tagged_only"` // count only obligations explicitly tagged with this property
 }
 
 type KnownFinding struct {
@@ -197,7 +198,12 @@ func cmdCheck(args []string) int {
 	}
 	dir, _ := os.MkdirTemp("", "pvc-"+id)
 	defer os.RemoveAll(dir)
-	filter := func(o *Obl) bool { return tagged(o.Tags, id) }
+	filter := func(o *Obl) bool {
+		if cfg.TaggedOnly {
+			return len(o.Tags) > 0 && tagged(o.Tags, id)
+		}
+		return tagged(o.Tags, id)
+	}
 	res := runObligations(fts, dir, timeout, filter, 4)
 	// vacuity covers
 	vac := runCovers(fts, dir)
@@ -248,12 +254,17 @@ func cmdCheck(args []string) int {
 			continue
 		}
 		inLedger := ledger[name]
+		if !inLedger && (r.o.Kind == "extcall" || r.o.Kind == "nondet" || r.o.Kind == "global-read" || r.o.Kind == "global-write") {
+			inLedger = true
+		}
 		if !inLedger && ledgerClass[classOfName(name)] {
 			// a new instance of a contract clause (e.g. a new back edge of a loop invariant, a new call site of a
 			// precondition) that was fully discharged on the reference tree; raw safety obligations count only for C17
 			switch r.o.Kind {
 			case "post", "inv-init", "inv-pres", "pre", "assigns", "lemma", "lemma-base", "lemma-step":
 				inLedger = true
+			case "extcall", "nondet", "global-read", "global-write":
+				inLedger = true // a new call into unspecified code breaks the frame argument of C09/C15
 			default:
 				inLedger = id == "C17"
 			}
